@@ -1,4 +1,5 @@
 """C02 — each share reaches only the pool that issued its job, under that pool's name."""
+import prvlib as L
 import sesslib as S
 
 
@@ -7,11 +8,35 @@ def nontrivial(h, lines):
     return any(l.startswith("< topool") and " submit " in l for l in lines) and any(l.startswith("> setdest") for l in lines)
 
 
+def known_unexpired_not_repeat(ctx):
+    """'accepted exactly when the share named a known, unexpired job ... and was not a repeat': the job memory and the repeat
+    check behind the session's verdicts — the real Validator on histories of announcements, time and submits (among them the
+    same share spelled with capital hex digits) against Spec/C19.lean"""
+    exe = L.build_harness(ctx, "validator")
+    if not exe:
+        return 0
+    rc, out = L.run_harness(ctx, exe, "TestVerifC19$", env={"VERIF_N": 150 if ctx.tier == "quick" else 2000, "VERIF_MAXOPS": 40, "VERIF_BSM": 0})
+    if rc != 0:
+        ctx.tie_failures.append("validator run failed (rc=%d): %s" % (rc, out[-300:]))
+        return 0
+
+    def classify(d):
+        op = L.last_op_before(d["lines"], d["first"]).split()
+        return ("c02-memory:%s:impl=%s:spec=%s" % (op[1] if len(op) > 1 else "?", " ".join(d["impl"].split()[1:2]), " ".join(d["other"].split()[1:2])),
+                "after %s the validator answered %r where the job-memory specification says %r: a share is accepted although its job is unknown / expired or it is a repeat, or refused although it is neither" % (" ".join(op[1:3]), d["impl"], d["other"]))
+    L.compare_transcript(ctx, "c19", "c19.impl.txt", classify, exe, "TestVerifC19$")
+    return sum(1 for h, _ in L.parse_cases("%s/c19.impl.txt" % ctx.out) if h.endswith("validator"))
+
+
 def run(ctx):
     cases = S.run_session_check(ctx, "C02")
+    ctx.coverage["job_memory_histories"] = known_unexpired_not_repeat(ctx)
     ctx.coverage["submits_after_reconnects_compared"] = S.after_reconnect(ctx, "C02")
     S.session_coverage(ctx, cases, nontrivial, S.GEN_RULE + " Non-trivial: a session with at least one switch and one forwarded share; distinct by op list")
 
 
 def replay(ctx, path):
+    import json
+    if json.load(open(path)).get("signature", "").startswith("c02-memory:"):
+        return L.generic_replay(ctx, path, "validator", "TestVerifC19$", "c19", "c19.impl.txt")
     return S.session_replay(ctx, path, "C02")
